@@ -77,6 +77,90 @@ Fixpoint h2_deframe (fs : list dframe) : option (list byte) :=
     else match h2_deframe r with Some b => Some (f_payload f ++ b) | None => None end
   end.
 
+(** * Byte-level HTTP/1 body decoders (what a strict client does with the bytes
+    that follow the header block).  They are prefix-tolerant: on a message cut
+    short they return the body bytes received so far and [false]. *)
+Definition hexval (b : byte) : option N :=
+  if (48 <=? b)%N && (b <=? 57)%N then Some (b - 48)%N
+  else if (97 <=? b)%N && (b <=? 102)%N then Some (b - 87)%N
+  else if (65 <=? b)%N && (b <=? 70)%N then Some (b - 55)%N
+  else None.
+
+(** chunk-size line: hex digits then CR LF (no chunk extension: kawa has no rule for them) *)
+Fixpoint size_line (acc : N) (seen : bool) (bs : list byte) : option (N * list byte) :=
+  match bs with
+  | [] => None
+  | b :: r =>
+    match hexval b with
+    | Some v => size_line (acc * 16 + v)%N true r
+    | None =>
+      if seen && (b =? 13)%N then
+        match r with
+        | c :: r' => if (c =? 10)%N then Some (acc, r') else None
+        | [] => None
+        end
+      else None
+    end
+  end.
+
+(** trailer section: lines ending in CR LF up to the empty line; true iff the empty line is there
+    and nothing follows *)
+Fixpoint trailers_end (fuel : nat) (bs : list byte) (at_line_start : bool) : bool :=
+  match fuel with
+  | O => false
+  | S f =>
+    match bs with
+    | 13%N :: 10%N :: r => if at_line_start then match r with [] => true | _ => false end
+                           else trailers_end f r true
+    | _ :: r => trailers_end f r false
+    | [] => false
+    end
+  end.
+
+Fixpoint has_crlf (bs : list byte) : bool :=
+  match bs with
+  | 13%N :: ((10%N :: _) as r) => true
+  | _ :: r => has_crlf r
+  | [] => false
+  end.
+
+(** -> (body so far, complete, malformed); a size line that is complete (CR LF seen) but does
+    not parse is malformed, one that is still cut short is not *)
+Fixpoint dechunk (fuel : nat) (bs : list byte) : list byte * bool * bool :=
+  match fuel with
+  | O => ([], false, false)
+  | S f =>
+    match size_line 0 false bs with
+    | None => ([], false, has_crlf bs)
+    | Some (n, r) =>
+      if (n =? 0)%N then ([], trailers_end (S (length r)) r true, false)
+      else
+        let k := N.to_nat n in
+        let data := firstn k r in
+        if length r <? k then (data, false, false)
+        else
+          match skipn k r with
+          | 13%N :: 10%N :: r' => let '(b, c, e) := dechunk f r' in (data ++ b, c, e)
+          | [] | [13%N] => (data, false, false)
+          | _ => (data, false, true)
+          end
+    end
+  end.
+
+(** kind 0 content-length [n], 1 chunked, 2 close-delimited ([whole] = the sender closed after it) *)
+Definition h1_body_decode (kind : N) (n : nat) (whole : bool) (after_head : list byte) : list byte * bool * bool :=
+  if (kind =? 0)%N then (firstn n after_head, n <=? length after_head, false)
+  else if (kind =? 1)%N then dechunk (S (length after_head)) after_head
+  else (after_head, whole, false).
+
+(** encoder used by the round-trip theorem: a chunk is (hex digits of its size, data) *)
+Definition hexchar (v : N) : byte := if (v <? 10)%N then (v + 48)%N else (v + 87)%N.
+Fixpoint hex_value (acc : N) (ds : list N) : N :=
+  match ds with [] => acc | d :: r => hex_value (acc * 16 + d)%N r end.
+Definition chunk_bytes (ds : list N) (data : list byte) : list byte :=
+  map hexchar ds ++ [13; 10]%N ++ data ++ [13; 10]%N.
+Definition last_chunk_bytes : list byte := [48; 13; 10; 13; 10]%N.
+
 (** * The H2 block converter on body blocks (lib/src/protocol/mux/converter.rs,
     H2BlockConverter::call, arms Block::Chunk and Block::Flags{end_stream}) driven
     by kawa.prepare: blocks are popped until the converter says stop. *)
